@@ -47,7 +47,7 @@ func (c17) Classes() []sim.Class {
 func (c17) Describe() sim.Description {
 	return sim.Description{
 		Level: "exploration",
-		Rule: "tape-generated histories of 5-30 WASI calls (every mutating call, path_open over the full cross product of oflags x fdflags x read/write rights, plus reads) against a pre-populated tree mounted read-only " +
+		Rule: "class multi-mount: several mounts derived in tape-chosen ways (writeable scratch mounts, the protected directory first writeable, mounts replaced or given a nil file system, finally the protected directory read-only), attempts through every pre-open descriptor; class cli-mount: the built command-line tool with every read-only spelling of -mount; otherwise: tape-generated histories of 5-30 WASI calls (every mutating call, path_open over the full cross product of oflags x fdflags x read/write rights, plus reads) against a pre-populated tree mounted read-only " +
 			"(WithReadOnlyDirMount, WithFSMount(os.DirFS), WithFSMount(fstest.MapFS)); after EVERY call a recursive snapshot of the host directory (names, types, modes, sizes, SHA-256 of content, mtime, ctime, nlink) must equal the initial one, " +
 			"and canonical read-only opens, reads, readdir and stat must keep returning the model's content. Non-trivial: at least 3 mutating attempts and one successful read; distinct = distinct sequences of (call, errno)",
 		RealCode: []string{"fsconfig.go mounts", "internal/sysfs ReadFS/AdaptFS/DirFS/osFile", "imports/wasi_snapshot_preview1 fs functions incl. openFlags translation", "both engines (guest = WASI shim module)", "real host directory"},
